@@ -619,6 +619,9 @@ func (server *Server) registerCoreExecutors() {
 		if err != nil {
 			return nil, newMissingArgumentError(cmd, "score", err)
 		}
+		if math.IsNaN(score) {
+			return nil, newInvalidArgumentError(cmd, "score", errors.New("not a number"))
+		}
 
 		members := []*ZSetMember{}
 		for {
